@@ -32,6 +32,9 @@ pub struct ExecParams {
     pub cfg: Config,
     pub big_values: bool,
     pub reopen_weight: u64,
+    /// end with a clean close and an open that does not take the old manifest and WAL over: the
+    /// manifest then starts with the snapshot record of all table files
+    pub final_reopen_without_reuse: bool,
 }
 
 impl ExecParams {
@@ -46,6 +49,7 @@ impl ExecParams {
             cfg: Config { memtable: 256, file: 1 << 20, block: 256, reuse: true },
             big_values: false,
             reopen_weight: 0,
+            final_reopen_without_reuse: false,
         }
     }
 
@@ -62,6 +66,7 @@ impl ExecParams {
             },
             big_values: idx % 5 == 4,
             reopen_weight: 2,
+            final_reopen_without_reuse: false,
         }
     }
 }
@@ -150,6 +155,19 @@ pub fn record_execution(rng: &mut Rng, params: &ExecParams) -> Execution {
             if let Err(e) = sess.write(ops) {
                 exec.degenerate = Some(format!("write refused: {e}"));
                 break;
+            }
+        }
+    }
+    if exec.degenerate.is_none() && params.final_reopen_without_reuse {
+        sess.wait_quiescent(std::time::Duration::from_secs(10));
+        sess.close();
+        let m0 = fs.mut_count();
+        sess.cfg = Config { reuse: false, ..sess.cfg };
+        match sess.open() {
+            Err(e) => exec.degenerate = Some(format!("clean reopen failed: {e}")),
+            Ok(()) => {
+                exec.opens.push((m0, fs.mut_count(), sess.cfg));
+                reopens += 1;
             }
         }
     }
